@@ -56,10 +56,17 @@ def run_algo_property(pid, prop_file, tier, seed, want, level="proof"):
         groups = []   # C08 / C12 families: lists of case positions that must agree with each other
         if "c08" in want:
             nfam = 40 if tier == "quick" else 150
-            for tc in T.gen_random(rng, nfam, 120 if tier == "quick" else 800, Hmax={1: 7, 2: 5, 3: 5, 4: 3}):
+            fam_trees = list(T.gen_random(rng, nfam - nfam // 3, 120 if tier == "quick" else 800, Hmax={1: 7, 2: 5, 3: 5, 4: 3}))
+            # a third of the families on Morton runs with empty parents between them (sparse upper levels)
+            fam_trees += list(T.gen_random(rng, nfam // 3, 120 if tier == "quick" else 800, dims=(1, 2, 2, 3), Hmax={1: 8, 2: 5, 3: 4, 4: 3}, deep=False, kinds=["gaps"]))
+            cut = [T.gen_cutgap(rng) for _ in range(6 if tier == "quick" else 60)]
+            fam_trees += cut
+            for tc in fam_trees:
                 nl = len(set(tc.leaf_indices()))
                 Bs = sorted(set([1, 2, 3, 5, 7, max(1, nl // 2), nl, nl + 1, 10000000]))
                 if nl <= 9: Bs = sorted(set(list(range(1, nl + 2)) + [10000000]))
+                if nl > 24: Bs = sorted(set(Bs + [17, rng.range(18, min(40, nl - 1))]))     # groups of more than 16 cells that are not alone
+                if tc.B > 16 and tc.B < nl: Bs = sorted(set(Bs + [tc.B]))
                 if hc > 0: Bs = Bs + [-hc]          # the automatic block size
                 fam = []
                 for B in Bs:
@@ -205,6 +212,54 @@ def run_algo_property(pid, prop_file, tier, seed, want, level="proof"):
                     return None
                 vlib.differential(rep, tbin, tcases, sdir, "tsmflags", canon=tcanon, oracle=toracle, nontrivial=lambda c, i: " M2L " in i,
                                   clause=lambda c: "tsmflags:d%s" % c.split()[1])
+        if "c12" in want:
+            # the periodic top tree (single and target/source) called with single flags and flag histories: each flag triggers only
+            # its own top-tree operator (P2M / L2P / P2P trigger nothing there)
+            from checks import c10
+            pbin, perr = vlib.build_harness("h_algo_per", sources=["h_algo.cpp"], defines=["FAMILY_PER"])
+            if not pbin:
+                rep.violation(dict(kind="build", clause="h_algo_per", has_input=True), "harness h_algo (periodic) does not compile: " + perr[-400:], dict(stderr=perr))
+            else:
+                pcases = []
+                base = c10.gen_cases("quick", rng)[: (25 if tier == "quick" else 150)]
+                for b in base:
+                    f = b.split()        # execper d H B mode k stop N nums
+                    if int(f[5]) < 0: f[5] = str(rng.range(0, 2))
+                    hists = [[x] for x in SINGLE] + [[63]] + [rng.choice(HIST) for _ in range(2)] + [[2, 32], [4, 16, 8], [32, 2, 1]]
+                    for h in hists:
+                        pcases.append("exectop %s %d %s %s" % (" ".join(f[1:7]), len(h), " ".join(map(str, h)), " ".join(f[7:])))
+                for _ in range(12 if tier == "quick" else 100):
+                    d = rng.choice([1, 2, 2, 3]); H = rng.range(2, {1: 5, 2: 4, 3: 3}[d])
+                    sn = T.gen_positions(rng, d, H, rng.choice([1, 3, rng.range(4, 30)]), rng.choice(T.KINDS))
+                    tn = T.gen_positions(rng, d, H, rng.choice([1, 3, rng.range(4, 30)]), rng.choice(T.KINDS))
+                    k = rng.choice([0, 1, 2])
+                    for h in [[x] for x in SINGLE] + [[63], rng.choice(HIST)]:
+                        pcases.append("exectoptsm %d %d %d %d %d 1 %d %s %d %s %d %s" % (d, H, rng.choice([1, 2, 5, 1000]), rng.below(2), k, len(h), " ".join(map(str, h)),
+                                      len(sn), " ".join(str(x) for p in sn for x in p), len(tn), " ".join(str(x) for p in tn for x in p)))
+
+                def pcanon(c, line):
+                    if line.startswith(("ABORT", "MODEL", "?")):
+                        return line
+                    parts = line.split(" || ")
+                    calls = Counter(x for x in (c10.canon_line(l) for l in A.split_trace(parts[-1])) if x is not None)
+                    return (parts[:-1], sorted(calls.items(), key=repr))
+
+                def poracle(c, line):
+                    t = c.split(); nf = int(t[7]); flags = [int(x) for x in t[8:8 + nf]]
+                    parts = line.split(" || ")
+                    seg = -1; cur = set()        # segment -1 = the real upward pass
+                    for x in A.split_trace(parts[-1]):
+                        cl = A.parse_call(x)
+                        if cl.op == "--":
+                            if seg >= 0:
+                                allowed = set(op for bit, op in ((4, "M2M"), (8, "M2L"), (16, "L2L")) if flags[seg] & bit)
+                                if not cur <= allowed:
+                                    return "top-tree execute(flags=%d) invoked %s" % (flags[seg], sorted(cur - allowed))
+                            cur = set(); seg += 1; continue
+                        if seg >= 0: cur.add(cl.op)
+                    return None
+                vlib.differential(rep, pbin, pcases, sdir, "topflags", canon=pcanon, oracle=poracle, nontrivial=lambda c, i: "t=10" in i,
+                                  clause=lambda c: "topflags:%s:d%s" % (c.split()[0], c.split()[1]))
         rep.coverage["rule"] = ("executions of the real sequential executor with the TraceKernel on: thinned occupancy-exhaustive small trees x stop level 0..2; random structured trees d=1..4 "
                                 "(heights up to %s) x block sizes x both modes x stop levels; %s. non-trivial = trace has M2M and M2L and >6 groups; distinct by case text"
                                 % ({1: 8, 2: 6, 3: 5, 4: 4} if tier == "quick" else {1: 10, 2: 7, 3: 6, 4: 4}, "+ grouping families (same input, all block sizes x modes)" if "c08" in want else "") )
